@@ -8,9 +8,9 @@ import (
 	"strings"
 
 	admissionapi "k8s.io/pod-security-admission/admission/api"
-	"k8s.io/pod-security-admission/api"
 	"k8s.io/pod-security-admission/admission/api/load"
 	"k8s.io/pod-security-admission/admission/api/validation"
+	"k8s.io/pod-security-admission/api"
 )
 
 func init() { props["C17"] = runC17 }
@@ -276,10 +276,10 @@ func genDoc(r *Rng) (*objVal, []string) {
 }
 
 type cfgOut struct {
-	OK     bool       `json:"ok"`
-	Cfg    J          `json:"cfg,omitempty"`
-	Errs   [][]any    `json:"errs,omitempty"`
-	Policy any        `json:"policy"`
+	OK     bool    `json:"ok"`
+	Cfg    J       `json:"cfg,omitempty"`
+	Errs   [][]any `json:"errs,omitempty"`
+	Policy any     `json:"policy"`
 	// not compared with the model: the property's own expectation for ToPolicy, computed from the stated strings
 	statedMismatch string
 }
@@ -357,10 +357,10 @@ func runC17(c *Ctx) {
 	r := NewRng(c.Seed)
 	var ops []J
 	type obs struct {
-		doc        *objVal
-		jsonText   string
-		yamlText   string
-		goJ, goY   cfgOut
+		doc      *objVal
+		jsonText string
+		yamlText string
+		goJ, goY cfgOut
 	}
 	var all []obs
 	// empty inputs
